@@ -53,7 +53,7 @@ pub fn run(ctx: &Ctx) -> Result<(), String> {
                     expect: Expect::CleanExit,
                     probe_at_end: false,
                 };
-                let s = explore(ctx, if stats { "client_stats on" } else { "client_stats off" }, &scn, &move |slot: &Slot| env_with_signal(slot, n, k, sig, pos), bound, ctx.tier.pick(1500, 30000), Duration::from_secs(ctx.tier.pick(25, 90)))?;
+                let s = explore(ctx, if stats { "client_stats on" } else { "client_stats off" }, &scn, &move |slot: &Slot| env_with_signal(slot, n, k, sig, pos), bound, ctx.tier.pick(1500, 30000), Duration::from_secs(ctx.tier.pick(25, 50)))?;
                 sched.merge(s);
             }
         }
@@ -88,7 +88,7 @@ pub fn run(ctx: &Ctx) -> Result<(), String> {
                     let mut e = env_with_signal(slot, n, k, s1, pos)?;
                     e.push(EnvAct::Signal(s2));
                     Some(e)
-                }, bound, ctx.tier.pick(1500, 30000), Duration::from_secs(ctx.tier.pick(25, 90)))?;
+                }, bound, ctx.tier.pick(1500, 30000), Duration::from_secs(ctx.tier.pick(25, 50)))?;
                 sched.merge(s);
             }
         }
@@ -116,7 +116,7 @@ pub fn run(ctx: &Ctx) -> Result<(), String> {
                 let mut e = env_with_signal(slot, n, 1, sig, 1)?;
                 e.insert(0, EnvAct::ConnectTcp);
                 Some(e)
-            }, bound, ctx.tier.pick(1500, 30000), Duration::from_secs(ctx.tier.pick(25, 90)))?;
+            }, bound, ctx.tier.pick(1500, 30000), Duration::from_secs(ctx.tier.pick(25, 50)))?;
             sched.merge(s);
         }
     }
@@ -125,7 +125,7 @@ pub fn run(ctx: &Ctx) -> Result<(), String> {
     // the top of its loop, signal
     {
         let plans: Vec<(u8, usize, i32)> = ctx.tier.pick(
-            vec![(1, 16, libc::SIGINT), (1, 17, libc::SIGTERM), (2, 32, libc::SIGTERM)],
+            vec![(1, 16, libc::SIGINT), (2, 32, libc::SIGTERM)],
             vec![(1, 15, libc::SIGINT), (1, 16, libc::SIGINT), (1, 16, libc::SIGTERM), (1, 17, libc::SIGTERM), (1, 32, libc::SIGINT), (2, 31, libc::SIGINT), (2, 32, libc::SIGTERM), (2, 33, libc::SIGINT), (4, 64, libc::SIGINT)],
         );
         for (bs, k, sig) in plans {
@@ -147,7 +147,7 @@ pub fn run(ctx: &Ctx) -> Result<(), String> {
                 e.push(EnvAct::WaitIdle);
                 e.push(EnvAct::Signal(sig));
                 Some(e)
-            }, 0, ctx.tier.pick(1500, 30000), Duration::from_secs(ctx.tier.pick(25, 90)))?;
+            }, 0, ctx.tier.pick(1500, 30000), Duration::from_secs(ctx.tier.pick(25, 50)))?;
             sched.merge(s);
         }
     }
